@@ -270,7 +270,9 @@ def rgfa(draw, min_chroms=1, max_chroms=2, max_elements=5, max_ln=9, min_element
 def rename_nodes(x, mapping):
     """Renames segments everywhere in a generated graph description (ids occur as dict keys and as list items)."""
     if isinstance(x, dict):
-        return {mapping.get(k, k) if isinstance(k, str) else k: rename_nodes(v, mapping) for k, v in x.items()}
+        # contig names and sequences are not segment ids, even when they happen to be spelled like one ("2")
+        return {mapping.get(k, k) if isinstance(k, str) else k: (v if k in ("sn", "seq", "name") else rename_nodes(v, mapping))
+                for k, v in x.items()}
     if isinstance(x, (list, tuple)):
         return type(x)(rename_nodes(v, mapping) for v in x)
     if isinstance(x, str):
